@@ -54,8 +54,9 @@ Theorem c19_hv_move : forall sh, permuting sh -> forall from to,
   (hv_wf from -> hv_wf to -> hv_wf (snd (hv_move sh from to))) /\
   snd (hv_move sh from to) = (if (length to <? length from)%nat then hv_drain_into sh to from else hv_drain_into sh from to).
 Proof.
-  intros sh P from to; destruct (hv_move_spec sh P from to) as [H1 [H2 H3]];
-    exact (conj H1 (conj H2 (conj H3 (hv_move_swaps sh from to)))).
+  intros sh P from to;
+    exact (conj (proj1 (hv_move_spec sh P from to)) (conj (proj1 (proj2 (hv_move_spec sh P from to)))
+          (conj (proj2 (proj2 (hv_move_spec sh P from to))) (hv_move_swaps sh from to)))).
 Qed.
 
 (* merge_delta_to_total_new_to_delta: total' = total + delta, delta' = new, new' = empty *)
@@ -193,8 +194,9 @@ Theorem c19_cri_freeze : forall hash (c : cri),
   (cri_wf hash c -> cri_wf hash (dm_freeze c) /\ cri_wf hash (dm_unfreeze c)) /\
   (forall k v, fst c = true -> cri_insert hash k v c = Panic) /\ (forall k, fst c = false -> cri_get hash k c = Panic).
 Proof.
-  intros hash c; destruct (cri_freeze_spec hash c) as [H1 [H2 H3]];
-    exact (conj H1 (conj H2 (conj H3 (conj (fun k v => cri_insert_frozen hash k v c) (fun k => cri_get_unfrozen hash k c))))).
+  intros hash c;
+    exact (conj (proj1 (cri_freeze_spec hash c)) (conj (proj1 (proj2 (cri_freeze_spec hash c))) (conj (proj2 (proj2 (cri_freeze_spec hash c)))
+          (conj (fun k v => cri_insert_frozen hash k v c) (fun k => cri_get_unfrozen hash k c))))).
 Qed.
 
 Theorem c19_cri_merge : forall sh, permuting sh -> forall hash (new : cri) delta total,
@@ -223,6 +225,16 @@ Theorem c19_cri_concurrent_then_lookup : forall hash n (threads : list (list (Z 
       | None => mm_lookup k (mm_of_inserts (concat threads)) = []
       end.
 Proof. exact cri_concurrent_then_lookup. Qed.
+
+(* the stratum protocol: any number of iterations "parallel inserts into new (any interleaving); merge", starting
+   from three empty indices with n shards: no panic, invariants kept, and new / delta / total abstract to the
+   multimaps the specification computes (total' = total + delta, delta' = new + inserts, new' = empty, each round) *)
+Theorem c19_cri_stratum_protocol : forall sh, permuting sh -> forall hash n, n <> O ->
+  forall rounds : list (list (list (Z * Z)) * list (Z * Z)),
+  Forall (fun ts => interleave (fst ts) (snd ts)) rounds ->
+  exists c', cri_rounds sh hash (map snd rounds) (dm_default [] n, dm_default [] n, dm_default [] n) = Ok c' /\
+             cri_ok3 hash n c' (mm_rounds (map (fun ts => concat (fst ts)) rounds) (mm_empty, mm_empty, mm_empty)).
+Proof. intros sh P hash n Hn rounds F; exact (cri_rounds_spec sh P hash n Hn rounds _ _ F (cri_ok3_initial hash n)). Qed.
 
 (* ================================================================ CRelFullIndex (DashMap; a set of keys) *)
 Theorem c19_cfi_insert_if_not_present : forall hash k v c, fst c = false -> has_shards fmap c ->
@@ -350,7 +362,8 @@ Theorem c19_cni_reads_freeze : forall c,
   (fst c = true -> cni_get c = Ok (Some (cni_abs c))) /\ (fst c = false -> cni_get c = Panic) /\
   cni_abs (cni_freeze c) = cni_abs c /\ cni_abs (cni_unfreeze c) = cni_abs c.
 Proof.
-  intros c; destruct (cni_freeze_spec c) as [H1 [H2 _]]; exact (conj (cni_get_spec c) (conj (cni_get_unfrozen c) (conj H1 H2))).
+  intros c; exact (conj (cni_get_spec c) (conj (cni_get_unfrozen c)
+                    (conj (proj1 (cni_freeze_spec c)) (proj1 (proj2 (cni_freeze_spec c)))))).
 Qed.
 
 (* the merge equation, under its explicit precondition: equal shard counts (values created in the same pool) *)
@@ -434,4 +447,4 @@ Print Assumptions c19_cni_insert. Print Assumptions c19_cni_reads_freeze. Print 
 Print Assumptions c19_noindex_merge_unequal_refuted. Print Assumptions c19_cni_concurrent.
 Print Assumptions c19_hv_history. Print Assumptions c19_cri_concurrent_then_lookup. Print Assumptions c19_cfi_concurrent_mixed.
 Print Assumptions c19_clat_concurrent_then_lookup. Print Assumptions c19_cni_concurrent_then_lookup.
-Print Assumptions c19_interleaving_exists. Print Assumptions c19_oracles_exist. Print Assumptions c19_empty_indices. Print Assumptions c19_example_serial. Print Assumptions c19_example_concurrent.
+Print Assumptions c19_cri_stratum_protocol. Print Assumptions c19_interleaving_exists. Print Assumptions c19_oracles_exist. Print Assumptions c19_empty_indices. Print Assumptions c19_example_serial. Print Assumptions c19_example_concurrent.
